@@ -175,3 +175,40 @@ def stepOK {R : Type} (eqv : R → R → Bool) (r : StepRecord R) : List (String
     ("observation_of_returned_state", r.obsOfReturnedState) ]
 
 end Lerax.Env
+
+/-! ### Gymnasium adapter (`LeraxToGymEnv`, `/repo/src/lerax/compatibility/gym.py`) -/
+
+namespace Lerax.Env
+
+section
+variable {S A O R K : Type} [Keys K]
+
+/-- the adapter's mutable fields: its PRNG key and the current environment state -/
+structure GymAdapter (S K : Type) where
+  key : K
+  state : S
+
+/-- `reset(seed)`: `if seed is not None: key = jr.key(seed)`; `key, reset_key = split(key)`;
+    `state, obs, info = env.reset(key=reset_key)` -/
+def GymAdapter.reset (E : Env S A O R K) (ad : GymAdapter S K) (seed : Option K) : GymAdapter S K × O :=
+  let key0 := seed.getD ad.key
+  let out := E.reset (sub key0 1)
+  ({ key := sub key0 0, state := out.1 }, out.2)
+
+/-- `step(action)`: `key, step_key = split(key)`; `env.step(state, action, key=step_key)` -/
+def GymAdapter.step (E : Env S A O R K) (ad : GymAdapter S K) (a : A) : GymAdapter S K × StepOut S O R :=
+  let out := E.step ad.state a (sub ad.key 1)
+  ({ key := sub ad.key 0, state := out.state }, out)
+
+/-- outputs of a sequence of adapter steps -/
+def GymAdapter.run (E : Env S A O R K) : GymAdapter S K → List A → List (StepOut S O R)
+  | _, [] => []
+  | ad, a :: as => let (ad', out) := ad.step E a; out :: GymAdapter.run E ad' as
+
+/-- the adapted environment stepped directly under the adapter's key schedule -/
+def envRun (E : Env S A O R K) : S → K → List A → List (StepOut S O R)
+  | _, _, [] => []
+  | s, k, a :: as => let out := E.step s a (sub k 1); out :: envRun E out.state (sub k 0) as
+
+end
+end Lerax.Env
